@@ -154,6 +154,14 @@ def set (pi : α) (w : W α) (upd : List (Option α)) : Except Exc (W α) :=
     if (List.zipWith pushBad w2 upd).any id then .error .constraint
     else .ok (List.zipWith pushOne w2 upd)
 
+/-- a history of `setParameters` calls -/
+def run (pi : α) : W α → List (List (Option α)) → Except Exc (W α)
+  | w, [] => .ok w
+  | w, u :: us =>
+    match set pi w u with
+    | .ok w' => run pi w' us
+    | .error e => .error e
+
 /-- the point at which the wrapped function stands -/
 def fnVals (w : W α) : List α := w.map (·.fn)
 
